@@ -226,9 +226,41 @@ def _log2(mk):
     return slog(nf.const(2)) if mk.symbolic else math.log(2.0)
 
 
-def _ratio_claims(name, code, spec, shape):
+def _plainly_false(mk, diff):
+    """cheap numeric look at a symbolic log-difference at a few points of the current path: True when it is clearly non-zero.
+    Only used to choose the FORM of the claim (never to discharge anything): a false identity is handed to the harness in log
+    space, where refuting it needs no polynomial expansion; a true one is handed over as exp(diff) ≡ 1, which the normal form closes."""
+    from vt.cond import current_path
+    from vt.scenario import _conds_hold, sample_env
+    rng = random.Random(20240917)
+    conds = [c for c in current_path() if c is not True]
+    seen = 0
+    for _ in range(400):
+        env = sample_env(mk.decls, rng)
+        try:
+            if not _conds_hold(conds, env):
+                continue
+            v = float(nf.evaluate(diff, env))
+        except (ZeroDivisionError, ValueError, OverflowError, KeyError):
+            continue
+        if v != v:
+            continue
+        if abs(v) > 1e-6:
+            return True
+        seen += 1
+        if seen >= 3:
+            return False
+    return False
+
+
+def _ratio_claims(name, code, spec, shape, mk=None):
     if code is None:
         return [("true", "one_value_returned", False, "result shape %s" % (shape,))]
+    if mk is not None and mk.symbolic and _plainly_false(mk, code - spec):
+        return [("eq", name, [code], [spec])]
+    if mk is not None and not mk.symbolic:
+        # same claim in both forms: the log form is the one reported when the identity is false
+        return [("eq", name, [sexp(code - spec)], [1.0])]
     return [("eq", name, [sexp(code - spec)], [1.0])]
 
 
@@ -265,7 +297,7 @@ def scn_single_epoch(T, n0, rho_mode, survival, removal, origin_mode="origin", t
         spec = _oracle_single(mk, x0, hsl, ysl, n0, e(lam), e(mu), e(psi), rho_s, rho_pos, r_s, survival, twin)
         if r is not None:
             spec = spec + (T - 1) * _log2(mk)   # BEAST2 sampled-ancestor tree-space constant (trusted base)
-        return _ratio_claims("single_epoch_is_stadler2010", _single(res), spec, tuple(res.shape))
+        return _ratio_claims("single_epoch_is_stadler2010", _single(res), spec, tuple(res.shape), mk)
     return scn
 
 
@@ -282,7 +314,7 @@ def scn_removal_consistency(T, n0, rho_mode, survival):
             a = bd.PiecewiseConstantBirthDeath(lam, mu, psi, rho=rho, origin=org, survival=survival).log_prob(nh)
             b = bd.PiecewiseConstantBirthDeath(lam, mu, psi, rho=rho, origin=org, survival=survival,
                                                removal_probability=torch.ones(1)).log_prob(nh)
-        return _ratio_claims("removal_one_equals_no_removal", _single(b), _single(a), tuple(b.shape))
+        return _ratio_claims("removal_one_equals_no_removal", _single(b), _single(a), tuple(b.shape), mk)
     return scn
 
 
@@ -299,7 +331,7 @@ def scn_constant_model(T, n0, rho_mode, survival):
             res = bdm.BirthDeath(lam, mu, psi, rho, org, survival=survival).log_prob(nh)
         e = lambda t: el(t, (0,))
         spec = _oracle_single(mk, e(org), hsl, ysl, n0, e(lam), e(mu), e(psi), rho_s, rho_pos, 1, survival)
-        return _ratio_claims("constant_model_is_stadler2010", _single(res), spec, tuple(res.shape))
+        return _ratio_claims("constant_model_is_stadler2010", _single(res), spec, tuple(res.shape), mk)
     return scn
 
 
@@ -337,7 +369,7 @@ def scn_model_call(T, tips, rho_mode, survival):
         ysl = [(nf.const(a) if mk.symbolic else a) for a in ages if a != 0.0]
         e = lambda t: el(t, (0,))
         spec = _oracle_single(mk, e(org), hsl, ysl, n0, e(lam), e(mu), e(psi), rho_s, rho_pos, 1, survival)
-        return _ratio_claims("model_call_is_stadler2010", _single(res), spec, tuple(res.shape))
+        return _ratio_claims("model_call_is_stadler2010", _single(res), spec, tuple(res.shape), mk)
     return scn
 
 
@@ -401,7 +433,7 @@ def scn_refine(T, n0, rho_mode, survival, removal, where, pieces=2, twin=None):
         a, b = _single(one), _single(split)
         if a is None or b is None:
             return [("true", "one_value_returned", False, "shapes %s / %s" % (tuple(one.shape), tuple(split.shape)))]
-        return [("eq", "split_epoch_equals_unsplit", [sexp(b - a)], [1.0])]
+        return _ratio_claims("split_epoch_equals_unsplit", b, a, (), mk)
     return scn
 
 
@@ -442,7 +474,7 @@ def scn_refine23(T, n0, rho_mode, survival):
         a, b = _single(base), _single(split)
         if a is None or b is None:
             return [("true", "one_value_returned", False, "shapes %s / %s" % (tuple(base.shape), tuple(split.shape)))]
-        return [("eq", "split_epoch_equals_unsplit", [sexp(b - a)], [1.0])]
+        return _ratio_claims("split_epoch_equals_unsplit", b, a, (), mk)
     return scn
 
 
@@ -481,7 +513,7 @@ def scn_relative_times(T, n0, rho_mode, survival, m, root_edge=False):
         a, b = _single(absolute), _single(relative)
         if a is None or b is None:
             return [("true", "one_value_returned", False, "shapes %s / %s" % (tuple(absolute.shape), tuple(relative.shape)))]
-        return [("eq", "relative_times_equal_absolute_times", [sexp(b - a)], [1.0])]
+        return _ratio_claims("relative_times_equal_absolute_times", b, a, (), mk)
     return scn
 
 
